@@ -298,4 +298,9 @@ def scanCL (nested : Bool) (l : List Char) : Option (List Char) :=
   | [] => none                           -- `_advance(2)` past the end
   | x :: xs => scanC nested 1 x xs
 
+/-- `_scan_comment("/*")` with what it records: `self._comments.append(self._text[2:-1])` taken when the scanner stands on the
+    `*` of the terminator, i.e. everything between `/*` and the closing `*/`.  Returns (comment text, what follows). -/
+def readComment (nested : Bool) (s : List Char) : Option (List Char × List Char) :=
+  (scanCL nested s).map fun rest => (s.take (s.length - rest.length - 2), rest)
+
 end SqlglotModel.Str
